@@ -185,7 +185,7 @@ def main():
 
 
 def decide(prop, tier, seed, work, evid_path, a, t_start):
-    specs = sorted(glob.glob(os.path.join(P.HARNESS, prop, '*.json')))
+    specs = [f for f in sorted(glob.glob(os.path.join(P.HARNESS, prop, '*.json'))) if os.path.basename(f) != 'CLAIM.json']
     if not specs:
         raise Broken('no harness registered for %s' % prop)
     known = [k for k in load_known() if k.get('property') == prop]
